@@ -28,7 +28,9 @@ CONSTANTS NH,      \* number of handles
           PChunk,  \* printf work chunk (64)
           MaxLen,  \* largest content length explored
           MaxArg,  \* largest offset/length argument offered
-          Prune    \* TRUE: representative arguments only for type refusals (export)
+          Prune,   \* TRUE: representative arguments only for type refusals (export)
+          Api      \* "c": C calls; "xarr" array/slice, "xtyped" typed_array<uint8_t>, "xunique"
+                   \* unique_array<uint8_t>, "xptr" pointer_array, "xmap" map<uint8_t,uint8_t> (C++)
 
 VARIABLES val, vtyp,         \* Tier 1
           rec, share,        \* Tier 2
@@ -62,7 +64,7 @@ UptoZero(s) ==
   THEN FirstN(s, (CHOOSE i \in 1..Len(s) : s[i] = 0 /\ \A j \in 1..(i - 1) : s[j] # 0) - 1)
   ELSE s
 
-ESize(t)      == IF t = "n" THEN 2 ELSE 1
+ESize(t)      == IF t = "n" THEN 2 ELSE 1      \* C++ element types ("y", "p", "kv") count in elements
 AlignUp(n, e) == ((n + e - 1) \div e) * e
 AllocSize(n)  == ((n + Hdr - 1) \div Gran + 1) * Gran - Hdr
 RoundChunk(n) == ((n + PChunk - 1) \div PChunk) * PChunk
@@ -176,41 +178,36 @@ BInsOk(r, pos, n) ==
   IN total = 0 \/ (total <= r.size /\ ~r.imm /\ used % e = 0 /\ pos % e = 0 /\ n % e = 0)
 
 (* mpt_array_insert(arr, pos, len): the caller writes d into the returned  *)
-(* region.  v = 1: an immutable private buffer with room is refused by     *)
-(* mpt_buffer_insert instead of being detached (permitted either way).     *)
+(* region.                                                                 *)
 Insert(h, pos, d, v) ==
   LET r == rec[h] n == Len(d) used == Len(r.data)
       arg == [h |-> h, pos |-> pos, data |-> d]
       top == Max(used, pos)
   IN
-  IF r.typ = "none"
-  THEN /\ v = 0
-       /\ Private(h, NewRec(Ins(<<>>, pos, d), AllocSize(pos + n), "raw"))
-       /\ V(h, Ins(<<>>, pos, d), "raw")
-       /\ ctr' = ctr + n
-       /\ Answer("insert", arg, IF pos + n = 0 THEN "any" ELSE "ok", <<>>, FALSE)
-  ELSE IF top + n <= r.size /\ ~Shared(h)
-  THEN \* mpt_buffer_insert in place
-       IF r.imm /\ top + n > 0
-       THEN \/ /\ v = 0 /\ Refuse("insert", arg, BInsOk([r EXCEPT !.imm = FALSE], pos, n))
-            \/ /\ v = 1 /\ BInsOk([r EXCEPT !.imm = FALSE], pos, n)
-               /\ Private(h, [r EXCEPT !.imm = FALSE, !.data = Ins(r.data, pos, d)])
+  /\ v = 0
+  /\ IF r.typ = "none"
+     THEN /\ Private(h, NewRec(Ins(<<>>, pos, d), AllocSize(pos + n), "raw"))
+          /\ V(h, Ins(<<>>, pos, d), "raw")
+          /\ ctr' = ctr + n
+          /\ Answer("insert", arg, IF pos + n = 0 THEN "any" ELSE "ok", <<>>, FALSE)
+     ELSE IF top + n <= r.size /\ ~Shared(h) /\ ~r.imm
+     THEN \* mpt_buffer_insert in place
+          IF ~BInsOk(r, pos, n) THEN Refuse("insert", arg, FALSE)
+          ELSE /\ InPlace(h, [r EXCEPT !.data = Ins(r.data, pos, d)])
                /\ V(h, Ins(val[h], pos, d), vtyp[h])
                /\ ctr' = ctr + n
-               /\ Answer("insert", arg, "ok", <<>>, TRUE)
-       ELSE /\ v = 0
-            /\ IF ~BInsOk(r, pos, n) THEN Refuse("insert", arg, FALSE)
-               ELSE /\ InPlace(h, [r EXCEPT !.data = Ins(r.data, pos, d)])
-                    /\ V(h, Ins(val[h], pos, d), vtyp[h])
-                    /\ ctr' = ctr + n
-                    /\ Answer("insert", arg, IF top + n = 0 THEN "any" ELSE "ok", <<>>, FALSE)
-  ELSE /\ v = 0
-       /\ LET dr == Det(h, top + n) IN
-          IF ~dr.ok \/ ~BInsOk(dr.rec, pos, n) THEN Refuse("insert", arg, FALSE)
+               /\ Answer("insert", arg, IF top + n = 0 THEN "any" ELSE "ok", <<>>, FALSE)
+     ELSE LET dr == Det(h, top + n) IN
+          IF ~dr.ok THEN Refuse("insert", arg, FALSE)
+          ELSE IF ~BInsOk(dr.rec, pos, n)
+          THEN \* detached first, then refused by mpt_buffer_insert: a private copy, same content
+               /\ IF dr.same THEN UNCHANGED <<rec, share>> /\ touch' = {} ELSE Private(h, dr.rec)
+               /\ UNCHANGED <<val, vtyp, ctr>>
+               /\ Answer("insert", arg, "refused", <<>>, FALSE)
           ELSE /\ Store(h, dr, Ins(r.data, pos, d))
                /\ V(h, Ins(val[h], pos, d), vtyp[h])
                /\ ctr' = ctr + n
-               /\ Answer("insert", arg, "ok", <<>>, FALSE)
+               /\ Answer("insert", arg, IF top + n = 0 THEN "any" ELSE "ok", <<>>, FALSE)
 
 (* mpt_array_set(arr, traits(t), len, data | 0, off): off in elements,     *)
 (* negative = relative to the end                                          *)
@@ -300,7 +297,7 @@ Clone(h, g) ==
   THEN /\ Private(h, Null) /\ V(h, <<>>, "none") /\ UNCHANGED ctr
        /\ Answer("clone", arg, "ok", <<>>, FALSE)
   ELSE IF g \in share[h] \/ (IsNull(h) /\ IsNull(g)) THEN NoChange("clone", arg, "ok", <<>>)
-  ELSE IF ~IsNull(h) /\ ~IsNull(g) /\ rec[h].typ # rec[g].typ THEN Refuse("clone", arg, FALSE)
+  ELSE IF Api = "c" /\ ~IsNull(h) /\ ~IsNull(g) /\ rec[h].typ # rec[g].typ THEN Refuse("clone", arg, FALSE)
   ELSE IF IsNull(g)
   THEN /\ Private(h, Null) /\ V(h, <<>>, "none") /\ UNCHANGED ctr
        /\ Answer("clone", arg, "ok", <<>>, FALSE)
@@ -432,17 +429,178 @@ BufSet(h, t, pos, d, zero) ==
           /\ Answer("bufset", arg, "ok", <<>>, FALSE)
 
 ---------------------------------------------------------------------------
+(* C++ wrappers (mptcore/array.h templates, mpt++/array.cpp).  They are    *)
+(* specified by the same vector meaning; the design part says how they     *)
+(* use detach/insert of the buffer underneath.                             *)
+
+(* array::array(size_t cap) *)
+XCtor(h, cap) ==
+  LET arg == [h |-> h, cap |-> cap] IN
+  /\ IsNull(h)
+  /\ IF cap = 0 THEN NoChange("xctor", arg, "ok", <<>>)
+     ELSE /\ Private(h, NewRec(<<>>, AllocSize(cap), "raw")) /\ V(h, <<>>, "raw") /\ UNCHANGED ctr
+          /\ Answer("xctor", arg, "ok", <<>>, FALSE)
+
+(* array::insert(off, len, data | 0): raw arrays only, region filled *)
+XInsert(h, pos, d, zero) ==
+  LET r == rec[h] n == Len(d) used == Len(r.data)
+      arg == [h |-> h, pos |-> pos, data |-> d, zero |-> zero]
+      top == Max(used, pos)
+  IN
+  IF r.typ \notin {"none", "raw"} THEN Refuse("xinsert", arg, FALSE)
+  ELSE IF r.typ = "none"
+  THEN /\ Private(h, NewRec(Ins(<<>>, pos, d), AllocSize(pos + n), "raw"))
+       /\ V(h, Ins(<<>>, pos, d), "raw") /\ ctr' = ctr + n
+       /\ Answer("xinsert", arg, IF pos + n = 0 THEN "any" ELSE "ok", <<>>, FALSE)
+  ELSE LET dr == IF top + n <= r.size /\ ~Shared(h) /\ ~r.imm THEN Same(h) ELSE Det(h, top + n) IN
+       IF ~dr.ok THEN Refuse("xinsert", arg, FALSE)
+       ELSE /\ Store(h, dr, Ins(r.data, pos, d))
+            /\ V(h, Ins(val[h], pos, d), "raw") /\ ctr' = ctr + n
+            /\ Answer("xinsert", arg, IF top + n = 0 THEN "any" ELSE "ok", <<>>, FALSE)
+
+(* array::set(len, data | 0): the array becomes exactly these bytes *)
+XSet(h, d, zero) ==
+  LET r == rec[h] n == Len(d) arg == [h |-> h, data |-> d, zero |-> zero] IN
+  IF r.typ = "raw" /\ ~Shared(h) /\ ~r.imm /\ n <= r.size
+  THEN /\ InPlace(h, [r EXCEPT !.data = d]) /\ V(h, d, "raw") /\ ctr' = ctr + n
+       /\ Answer("xset", arg, "ok", <<>>, FALSE)
+  ELSE /\ Private(h, NewRec(d, AllocSize(n), "raw")) /\ V(h, d, "raw") /\ ctr' = ctr + n
+       /\ Answer("xset", arg, "ok", <<>>, FALSE)
+
+(* array::content::set_length(len) on an exclusively owned raw buffer *)
+XSetLength(h, len) ==
+  LET r == rec[h] arg == [h |-> h, len |-> len]
+      d == IF len <= Len(r.data) THEN FirstN(r.data, len) ELSE Pad(r.data, len)
+      d1 == IF len <= Len(val[h]) THEN FirstN(val[h], len) ELSE Pad(val[h], len)
+  IN
+  /\ ~IsNull(h) /\ ~Shared(h) /\ ~r.imm
+  /\ IF r.typ # "raw" \/ len > r.size THEN Refuse("xsetlength", arg, FALSE)
+     ELSE /\ InPlace(h, [r EXCEPT !.data = d]) /\ V(h, d1, "raw") /\ UNCHANGED ctr
+          /\ Answer("xsetlength", arg, "ok", <<>>, FALSE)
+
+(* array::set(value("text")): character array holding the text and its terminator *)
+XSetValue(h, d) ==
+  LET arg == [h |-> h, data |-> d] nd == d \o <<0>> IN
+  /\ Private(h, NewRec(nd, AllocSize(Len(nd)), "c")) /\ V(h, nd, "c") /\ ctr' = ctr + Len(d)
+  /\ Answer("xsetvalue", arg, "ok", <<>>, FALSE)
+
+(* typed_array<T> / unique_array<T> / pointer_array<T> / map: element units *)
+ETyp == CASE Api = "xptr" -> "p" [] Api = "xmap" -> "kv" [] OTHER -> "y"
+ENc  == Api = "xunique"
+\* reserve(len): [ok, same, rec] -- the empty default instance creates, others detach
+TRes(h, len) ==
+  IF IsNull(h) THEN [ok |-> TRUE, same |-> FALSE, rec |-> [NewRec(<<>>, AllocSize(len), ETyp) EXCEPT !.nc = ENc]]
+  ELSE Det(h, len)
+
+TCtor(h, len) ==
+  LET arg == [h |-> h, len |-> len] IN
+  /\ IsNull(h)
+  /\ IF len < 0 THEN NoChange("tctor", arg, "ok", <<>>)
+     ELSE /\ Private(h, TRes(h, len).rec) /\ V(h, <<>>, ETyp) /\ UNCHANGED ctr
+          /\ Answer("tctor", arg, "ok", <<>>, FALSE)
+
+TInsert(h, pos0, v) ==
+  LET r == rec[h] used == Len(r.data) arg == [h |-> h, pos |-> pos0, data |-> <<v>>]
+      pos == IF pos0 < 0 THEN pos0 + used ELSE pos0
+      top == Max(used, pos)
+      dr == TRes(h, top + 1)
+  IN
+  IF pos < 0 \/ ~dr.ok \/ ~BInsOk(dr.rec, pos, 1) THEN Refuse("tinsert", arg, FALSE)
+  ELSE /\ Store(h, dr, Ins(r.data, pos, <<v>>))
+       /\ V(h, Ins(val[h], pos, <<v>>), ETyp) /\ ctr' = ctr + 1
+       /\ Answer("tinsert", arg, "ok", <<>>, FALSE)
+
+TSet(h, pos0, v) ==
+  LET r == rec[h] used == Len(r.data) arg == [h |-> h, pos |-> pos0, data |-> <<v>>]
+      pos == IF pos0 < 0 THEN pos0 + used ELSE pos0
+  IN
+  IF pos < 0 \/ pos >= used THEN Refuse("tset", arg, FALSE)
+  ELSE LET dr == Det(h, used) IN
+       IF ~dr.ok THEN Refuse("tset", arg, FALSE)
+       ELSE /\ Store(h, dr, Over(r.data, pos, <<v>>))
+            /\ V(h, Over(val[h], pos, <<v>>), ETyp) /\ ctr' = ctr + 1
+            /\ Answer("tset", arg, "ok", <<>>, FALSE)
+
+TGet(h, pos0) ==
+  LET used == Len(val[h]) arg == [h |-> h, pos |-> pos0]
+      pos == IF pos0 < 0 THEN pos0 + used ELSE pos0
+  IN
+  IF pos < 0 \/ pos >= used THEN Refuse("tget", arg, FALSE)
+  ELSE NoChange("tget", arg, "ok", <<val[h][pos + 1]>>)
+
+TReserve(h, len0) ==
+  LET arg == [h |-> h, len |-> len0] len == IF len0 < 0 THEN len0 + Used(h) ELSE len0 IN
+  IF len < 0 THEN Refuse("treserve", arg, FALSE)
+  ELSE LET dr == TRes(h, len) IN
+       IF ~dr.ok THEN Refuse("treserve", arg, FALSE)
+       ELSE /\ IF dr.same THEN UNCHANGED <<rec, share>> /\ touch' = {} ELSE Private(h, dr.rec)
+            /\ V(h, dr.rec.data, dr.rec.typ) /\ UNCHANGED ctr
+            /\ Answer("treserve", arg, "ok", <<>>, Len(dr.rec.data) < Used(h))
+
+TResize(h, len) ==
+  LET arg == [h |-> h, len |-> len] dr == TRes(h, len)
+      F(s) == IF len <= Len(s) THEN FirstN(s, len) ELSE Pad(s, len)
+  IN
+  IF ~dr.ok THEN Refuse("tresize", arg, FALSE)
+  ELSE /\ Store(h, dr, F(dr.rec.data))
+       /\ V(h, F(val[h]), ETyp) /\ UNCHANGED ctr
+       /\ Answer("tresize", arg, "ok", <<>>, FALSE)
+
+(* pointer_array<T>::compact(): null pointers removed, order kept *)
+NonZero(s) == SelectSeq(s, LAMBDA x : x # 0)
+PCompact(h) ==
+  LET r == rec[h] arg == [h |-> h] IN
+  IF IsNull(h) \/ r.imm THEN NoChange("pcompact", arg, "any", <<>>)
+  ELSE IF ~Shared(h)
+  THEN /\ InPlace(h, [r EXCEPT !.data = NonZero(r.data)])
+       /\ V(h, NonZero(val[h]), ETyp) /\ UNCHANGED ctr
+       /\ Answer("pcompact", arg, "any", <<>>, FALSE)
+  ELSE /\ Private(h, NewRec(NonZero(r.data), AllocSize(Len(NonZero(r.data))), ETyp))
+       /\ V(h, NonZero(val[h]), ETyp) /\ UNCHANGED ctr
+       /\ Answer("pcompact", arg, "any", <<>>, FALSE)
+
+(* map<K,V>: an element is the pair key*16+value; first match wins *)
+KeyOf(e) == e \div 16
+ValOf(e) == e % 16
+HasKey(s, k) == \E i \in 1..Len(s) : KeyOf(s[i]) = k
+FirstKey(s, k) == CHOOSE i \in 1..Len(s) : KeyOf(s[i]) = k /\ \A j \in 1..(i - 1) : KeyOf(s[j]) # k
+MapSet(h, k, v, app) ==       \* app = 1: map::append (no lookup)
+  LET r == rec[h] used == Len(r.data) e == k * 16 + v
+      arg == [h |-> h, key |-> k, value |-> v, app |-> app]
+  IN
+  IF app = 0 /\ HasKey(r.data, k)
+  THEN LET i == FirstKey(r.data, k) dr == Det(h, used) IN
+       IF ~dr.ok THEN Refuse("mapset", arg, FALSE)
+       ELSE /\ Store(h, dr, Over(r.data, i - 1, <<e>>))
+            /\ V(h, Over(val[h], i - 1, <<e>>), ETyp) /\ ctr' = ctr + 1
+            /\ Answer("mapset", arg, "ok", <<>>, FALSE)
+  ELSE LET dr == TRes(h, used + 1) IN
+       IF ~dr.ok \/ ~BInsOk(dr.rec, used, 1) THEN Refuse("mapset", arg, FALSE)
+       ELSE /\ Store(h, dr, r.data \o <<e>>)
+            /\ V(h, val[h] \o <<e>>, ETyp) /\ ctr' = ctr + 1
+            /\ Answer("mapset", arg, "ok", <<>>, FALSE)
+MapGet(h, k) ==
+  LET arg == [h |-> h, key |-> k] IN
+  IF HasKey(val[h], k) THEN NoChange("mapget", arg, "ok", <<ValOf(val[h][FirstKey(val[h], k)])>>)
+  ELSE Refuse("mapget", arg, FALSE)
+MapValues(h, k) ==            \* k = 0: all values
+  LET arg == [h |-> h, key |-> k]
+      sel == SelectSeq(val[h], LAMBDA e : k = 0 \/ KeyOf(e) = k)
+  IN NoChange("mapvalues", arg, "ok", [i \in 1..Len(sel) |-> ValOf(sel[i])])
+
+---------------------------------------------------------------------------
 Init ==
   /\ val = [h \in H |-> <<>>] /\ vtyp = [h \in H |-> "none"]
   /\ rec = [h \in H |-> Null] /\ share = [h \in H |-> {h}]
   /\ touch = {} /\ ctr = 0
-  /\ obs = [a |-> "init", arg |-> [n |-> NH, gran |-> Gran],
+  /\ obs = [a |-> "init", arg |-> [n |-> NH, gran |-> Gran, api |-> Api],
             exp |-> [ret |-> "ok", out |-> <<>>, vals |-> [h \in H |-> <<>>], lens |-> [h \in H |-> 0],
                      typs |-> [h \in H |-> "none"], frozen |-> "ok", either |-> FALSE],
             mdl |-> [sizes |-> [h \in H |-> 0], refs |-> [h \in H |-> 1],
                      imm |-> [h \in H |-> FALSE], nc |-> [h \in H |-> FALSE]]]
 
 Types  == {"raw", "c", "n"}
+XTypes == {"y", "p", "kv"}
 TTypes == {"c", "n"}
 Data(n, z) == IF z = 1 THEN Zeros(n) ELSE Fresh(n)
 
@@ -451,7 +609,7 @@ Data(n, z) == IF z = 1 THEN Zeros(n) ELSE Fresh(n)
 \* for a content-type reason are offered with one representative argument set;
 \* flagged buffers are made through handle 1 (others obtain them by cloning).
 TypeOk1(h, t)  == rec[h].typ \in {"none", t}
-Next ==
+NextC ==
   \E h \in H : LET A == (Prune => h = 1) IN
      \/ \E n \in 0..MaxArg, imm \in BOOLEAN, nc \in BOOLEAN, t \in Types :
            /\ Prune => ((imm \/ nc) => h = 1)
@@ -490,13 +648,72 @@ Next ==
            /\ (Prune /\ rec[h].typ # t) => (pos = 0 /\ n = ESize(t) /\ z = 0)
            /\ BufSet(h, t, pos, Data(n, z), z)
 
+\* C++ array/slice class
+NextXArr ==
+  \E h \in H : LET A == (Prune => h = 1) IN
+     \/ \E cap \in 0..MaxArg : (Prune /\ h # 1 => cap = 1) /\ XCtor(h, cap)
+     \/ \E n \in 0..MaxArg, imm \in BOOLEAN, nc \in BOOLEAN :
+           /\ Prune => ((imm \/ nc) => h = 1)
+           /\ (Prune /\ h # 1) => n = 1
+           /\ New(h, Fresh(n), imm, nc, "raw")
+     \/ \E n \in 0..MaxArg, z \in {0, 1} :
+           /\ A /\ (z = 1 => n > 0)
+           /\ (Prune /\ rec[h].typ \notin {"none", "raw"}) => (n = 1 /\ z = 0)
+           /\ ArrAppend(h, Data(n, z), z)
+     \/ \E pos \in 0..MaxArg, n \in 0..MaxArg, z \in {0, 1} :
+           /\ A /\ (z = 1 => n > 0)
+           /\ (Prune /\ rec[h].typ \notin {"none", "raw"}) => (pos = 0 /\ n = 1 /\ z = 0)
+           /\ XInsert(h, pos, Data(n, z), z)
+     \/ \E n \in 0..MaxArg, z \in {0, 1} : A /\ (z = 1 => n > 0) /\ XSet(h, Data(n, z), z)
+     \/ \E n \in 0..MaxArg : A /\ XSetLength(h, n)
+     \/ \E n \in 0..MaxArg : A /\ (Prune => n <= 1) /\ XSetValue(h, Fresh(n))
+     \/ \E g \in 0..NH : g # h /\ Clone(h, g)
+     \/ \E n \in 0..MaxArg :
+           /\ A /\ ((Prune /\ ~TypeOk1(h, "c")) => n = 1)
+           /\ Printf(h, Fresh(n))
+     \/ A /\ String(h)
+     \/ \E off \in 0..Used(h), len \in 0..Used(h), nblk \in 0..MaxArg, esz \in 1..2, z \in {0, 1} :
+           /\ A /\ nblk * esz <= MaxArg /\ off + len <= Used(h) /\ (z = 1 => nblk > 0)
+           /\ (Prune /\ rec[h].typ \notin {"none", "raw"}) => (off = 0 /\ len = 0 /\ nblk = 1 /\ esz = 1 /\ z = 0)
+           /\ LET c == SWKeep(h, off, len, esz, nblk) IN
+              SliceWrite(h, off, len, nblk, esz, Data(nblk * esz, z), z, c.k, c.compact, c.realloc)
+     \/ \E pos \in 0..MaxArg, n \in 0..MaxArg : A /\ BufInsert(h, pos, Fresh(n))
+
+\* typed_array<uint8_t>, unique_array<uint8_t>, pointer_array<T>
+NextXTyped ==
+  \E h \in H : LET A == (Prune => h = 1) IN
+     \/ \E len \in (-1)..MaxArg : (Prune /\ h # 1 => len = 1) /\ TCtor(h, len)
+     \/ \E g \in 0..NH : g # h /\ Clone(h, g)
+     \/ \E pos \in (-2)..MaxArg, z \in {0, 1} :
+           /\ (Prune /\ h # 1) => (pos = 0 /\ z = 0)
+           /\ z = 1 => Api = "xptr"
+           /\ TInsert(h, pos, IF z = 1 THEN 0 ELSE Fresh(1)[1])
+     \/ \E pos \in (-2)..MaxArg, z \in {0, 1} : A /\ (z = 1 => Api = "xptr") /\ TSet(h, pos, IF z = 1 THEN 0 ELSE Fresh(1)[1])
+     \/ \E pos \in (-2)..MaxArg : A /\ TGet(h, pos)
+     \/ \E len \in (-2)..MaxArg : A /\ TReserve(h, len)
+     \/ \E len \in 0..MaxArg : A /\ TResize(h, len)
+     \/ A /\ Api = "xptr" /\ PCompact(h)
+
+\* map<uint8_t, uint8_t>
+NextXMap ==
+  \E h \in H : LET A == (Prune => h = 1) IN
+     \/ \E g \in 0..NH : g # h /\ Clone(h, g)
+     \/ \E k \in 1..3, app \in {0, 1} : (Prune /\ h # 1 => app = 1 /\ k = 1) /\ MapSet(h, k, (ctr % 15) + 1, app)
+     \/ \E k \in 1..3 : A /\ MapGet(h, k)
+     \/ \E k \in 0..3 : A /\ MapValues(h, k)
+
+Next == CASE Api = "c" -> NextC
+          [] Api = "xarr" -> NextXArr
+          [] Api \in {"xtyped", "xunique", "xptr"} -> NextXTyped
+          [] Api = "xmap" -> NextXMap
+
 Spec == Init /\ [][Next]_vars
 
 ---------------------------------------------------------------------------
 (* invariants *)
 TypeOK ==
-  /\ \A h \in H : /\ vtyp[h] \in Types \cup {"none"}
-                  /\ rec[h].typ \in Types \cup {"none"}
+  /\ \A h \in H : /\ vtyp[h] \in Types \cup XTypes \cup {"none"}
+                  /\ rec[h].typ \in Types \cup XTypes \cup {"none"}
                   /\ Len(rec[h].data) <= rec[h].size
                   /\ Len(rec[h].data) % ESize(rec[h].typ) = 0
                   /\ h \in share[h]
@@ -514,5 +731,6 @@ NoTouch == touch = {}
 
 \* action properties
 Independent == [][\A h \in H : (h # obs'.arg.h) => (val'[h] = val[h] /\ vtyp'[h] = vtyp[h])]_vars
-RefuseFrame == [][obs'.exp.ret = "refused" => (val' = val /\ rec' = rec /\ share' = share)]_vars
+RefuseFrame == [][obs'.exp.ret = "refused" =>
+                    (val' = val /\ vtyp' = vtyp /\ \A h \in H : rec'[h].data = rec[h].data)]_vars
 =============================================================================
